@@ -269,9 +269,11 @@ class ResolverMixin:  # pylint: disable=too-few-public-methods
         for obj_name, obj in superclass_objects.items():
             if obj_name not in new_objects:
                 new_obj = obj.copy()
-                new_obj.propagated = True
-                assert obj.class_origin
-                new_obj.class_origin = obj.class_origin
+                # Parameters have no propagated and class_origin attributes
+                if not isinstance(new_obj, CIMParameter):
+                    new_obj.propagated = True
+                    assert obj.class_origin
+                    new_obj.class_origin = obj.class_origin
                 for qname, qualifier in list(new_obj.qualifiers.items()):
                     if qualifier.tosubclass is False:
                         # Restricted flavor: not propagated to subclasses
@@ -296,13 +298,15 @@ class ResolverMixin:  # pylint: disable=too-few-public-methods
         if propagated:
             assert superclass is not None
 
-        new_obj.propagated = propagated
-        if propagated:
-            assert inherited_obj is not None
-            new_obj.class_origin = inherited_obj.class_origin
-        else:
-            assert inherited_obj is None
-            new_obj.class_origin = new_class.classname
+        # Parameters have no propagated and class_origin attributes
+        if not isinstance(new_obj, CIMParameter):
+            new_obj.propagated = propagated
+            if propagated:
+                assert inherited_obj is not None
+                new_obj.class_origin = inherited_obj.class_origin
+            else:
+                assert inherited_obj is None
+                new_obj.class_origin = new_class.classname
         self._resolve_qualifiers(new_obj.qualifiers,
                                  inherited_obj_qual,
                                  new_class,
